@@ -3,6 +3,7 @@ package checks
 import (
 	"context"
 	"fmt"
+	"runtime"
 	"strings"
 	"sync/atomic"
 
@@ -225,6 +226,49 @@ func c06backpressure(c *vt.Ctx, L, w, rel int, batchWaiters bool, ctrl *sched.Co
 	c.Eval(1)
 }
 
+// c06wide: limits larger than the number of CPUs are limits like any other: with
+// Concurrency L and L+extra gated calls exactly L run, and each released one is
+// replaced at once.
+func c06wide(c *vt.Ctx, L, extra int, ctrl *sched.Controller) {
+	peer.Bubble(c, ctrl, func() {
+		rig := peer.NewServerRig(c, ctrl, peer.ServerOpts{Concurrency: L})
+		what := fmt.Sprintf("wide: Concurrency %d (NumCPU %d), %d calls", L, runtime.NumCPU(), L+extra)
+		for i := 0; i < L+extra; i++ {
+			rig.Send(peer.Req(fmt.Sprint(i+1), "g", fmt.Sprintf("w%d", i)))
+		}
+		rig.Settle()
+		if got := rig.H.Running(); got != L {
+			c.Failf("%s: %d handlers running, want %d", what, got, L)
+		}
+		for k := 0; k < extra; k++ {
+			// release one that is running
+			for i := 0; i < L+extra; i++ {
+				tag := fmt.Sprintf("w%d", i)
+				if rig.Log.Count("h.enter", tag) == 1 && rig.Log.Count("h.exit", tag) == 0 {
+					rig.H.Release(tag)
+					break
+				}
+			}
+			rig.Settle()
+			if got := rig.H.Running(); got != L {
+				c.Failf("%s: after %d releases %d handlers running, want %d", what, k+1, got, L)
+			}
+		}
+		if rig.H.MaxRunning() > L {
+			c.Failf("%s: %d handlers ran at once", what, rig.H.MaxRunning())
+		}
+		rig.H.ReleaseAll()
+		rig.Settle()
+		if _, ok := rig.Finish(); !ok {
+			c.Failf("%s: server did not exit after the peer closed", what)
+		}
+		c.Count("handler_runs", int(rig.H.Invocations()))
+		c.Count("events", rig.Log.Len())
+		c.Count("runs_with_limit_above_numcpu", 1)
+	})
+	c.Eval(1)
+}
+
 func init() {
 	chk := vt.Lookup("C06")
 	if chk == nil {
@@ -305,7 +349,31 @@ func init() {
 				}
 			}
 		}
+		for _, L := range []int{runtime.NumCPU() + 3, 2*runtime.NumCPU() + 1, 100} {
+			L := L
+			id := fmt.Sprintf("V/wide/L%d", L)
+			if !yield(vt.Case{ID: id, Run: func(c *vt.Ctx) {
+				c06wide(c, L, 3, sched.New())
+				c.Distinct(id)
+			}}) {
+				return
+			}
+		}
+		// (T) calls whose context (NewContext with a deadline and a cause) ends while they wait for a slot: c01_timeout.go
+		for _, script := range [][]string{{"c"}, {"c", "c"}, {"nc", "c"}, {"c", "cn"}} {
+			for _, conc := range []int{1, 2} {
+				script, conc := script, conc
+				id := fmt.Sprintf("T/%s/c%d", join(script), conc)
+				if !yield(vt.Case{ID: id, Run: func(c *vt.Ctx) {
+					c01tExec(c, script, conc, sched.New())
+					c.Distinct(id)
+				}}) {
+					return
+				}
+			}
+		}
 	}
+	chk.Rule += "; (V) limits above the number of CPUs (NumCPU+3, 2*NumCPU+1, 100) with 3 calls beyond the limit; (T) calls whose context - a deadline with a cause from ServerOptions.NewContext - ends while they wait for a slot: answered with a cancellation error, handler never run"
 	chk.Rule += "; (W) every Send of the server's end held by the harness (a transport with back-pressure): L running calls, w waiting, running calls released one by one — at each quiescent point, with the finished call's reply still inside Send, the next waiter must have started"
 	chk.Rule += "; plus (S) Stop with L-1 cancellation-deaf calls and a notification holding all slots and 4 more notifications parked/queued, released one by one, and (P) L handlers blocked inside Server.Callback with further calls waiting — both with every single hook visit parked"
 }
